@@ -18,9 +18,10 @@ Require Import Base.Bits Base.Iter Base.Wr Gen.Consts Gen.Types Gen.Preds Gen.Mu
 Import ListNotations.
 Open Scope Z_scope.
 
-Ltac wleaf f model :=
-  unfold f; wsimpl; unfold wf_sim, wf_ok, model; cbn [fst snd];
-  split; [reflexivity | split; [norm_items | reflexivity]].
+Ltac wmodel_cbn ::= cbn [need res_map res_bind].
+Ltac wmodel_unfold ::= unfold repeat_item.
+
+Ltac wleaf f model := unfold f, model; wsimpl; wfinish.
 
 Lemma writePCR_is_model cr : wf_sim (writePCR cr) (Ok (enc_pcr cr, C_pcrBytesSize)).
 Proof. wleaf writePCR enc_pcr. Qed.
@@ -31,47 +32,21 @@ Proof. wleaf writePTSOrDTS enc_pts_or_dts. Qed.
 Lemma writePacketHeader_is_model h : wf_sim (writePacketHeader h) (Ok (enc_packet_header h, C_mpegTsPacketHeaderSize)).
 Proof. wleaf writePacketHeader enc_packet_header. Qed.
 
-(* use a callee lemma: replaces the call by its shape *)
-Ltac wcallee H :=
-  let l := fresh "l" in let E := fresh "E" in let Hn := fresh "Hn" in let Hd := fresh "Hd" in
-  destruct (wf_sim_ok_inv _ _ _ H) as (l & E & Hn & Hd); rewrite E; clear E.
-
-Ltac wcount := first [ reflexivity | apply f_equal; apply f_equal2; [ first [ reflexivity | lia ] | reflexivity ] ].
-Ltac witems :=
-  unfold wu8, wu16, wu32, repeat_item; rewrite ?Z.sub_0_r;
-  repeat first
-    [ reflexivity
-    | rewrite map_app
-    | rewrite map_nsnd_repeat
-    | rewrite map_norm_repeat
-    | match goal with H : map nsnd ?l = _ |- context [map nsnd ?l] => rewrite H end
-    | progress cbn [map nsnd norm snd fst]
-    | apply f_equal2; [ first [ reflexivity | f_equal; mod_norm ] | ]
-    | lia ].
-Ltac wnd :=
-  unfold nd in *;
-  repeat first
-    [ rewrite forallb_app
-    | progress cbn [forallb kept fst andb]
-    | match goal with H : forallb kept ?l = true |- context [forallb kept ?l] => rewrite H end
-    | rewrite forallb_kept_repeat by reflexivity ];
-  reflexivity.
-Ltac wfinish :=
-  unfold wf_sim, wf_ok; cbn [fst snd]; rewrite ?app_nil_r;
-  split; [ wcount | split; [ witems | wnd ] ].
+Ltac wcall1 ::=
+  match goal with
+  | |- context [wbind (wcall (writePTSOrDTS ?f ?c)) ?k] => wcallee (writePTSOrDTS_is_model f c)
+  | |- context [wbind (wcall (writePCR ?c)) ?k] => wcallee (writePCR_is_model c)
+  | |- context [wbind (wcall (writePacketHeader ?c)) ?k] => wcallee (writePacketHeader_is_model c)
+  end.
 
 Lemma writeAFE_is_model afe : wf_sim (writePacketAdaptationFieldExtension afe) (enc_af_extension afe).
 Proof.
   unfold writePacketAdaptationFieldExtension, enc_af_extension.
-  destruct (PacketAdaptationExtensionField_HasLegalTimeWindow afe),
-           (PacketAdaptationExtensionField_HasPiecewiseRate afe),
-           (PacketAdaptationExtensionField_HasSeamlessSplice afe);
-  try (destruct (PacketAdaptationExtensionField_DTSNextAccessUnit afe) as [dts|]; [| wsimpl; reflexivity]);
-  cbn [need res_bind]; wsimpl;
-  try (wcallee (writePTSOrDTS_is_model (PacketAdaptationExtensionField_SpliceType afe) dts); wsimpl).
-  all: wfinish.
+  (* the model computes the flag-dependent parts up front: make them symbolic in the same way *)
+  wstep; wfinish.
 Qed.
 
+(* for i := 0; i < af.StuffingLength; i++ { b.Write(uint8(0xff)); bytesWritten++ } *)
 Lemma af_loop_is n : forall af bw i len e,
   writePacketAdaptationField_loop1 n af bw i len e =
   (repeat (WBatch, WBits 8 (255 mod 256)) n, WVal (bw + Z.of_nat n, i + Z.of_nat n)).
@@ -85,27 +60,11 @@ Qed.
 Lemma writeAF_is_model af : wf_sim (writePacketAdaptationField af) (enc_adaptation_field af).
 Proof.
   unfold writePacketAdaptationField, enc_adaptation_field.
-  destruct (PacketAdaptationField_IsOneByteStuffing af); wsimpl; [wfinish|].
-  destruct (PacketAdaptationField_HasPCR af);
-    [destruct (PacketAdaptationField_PCR af) as [pcr|]; [|wsimpl; reflexivity]; cbn [need res_map res_bind]; wsimpl;
-     wcallee (writePCR_is_model pcr); wsimpl | cbn [res_bind]; wsimpl].
-  all: destruct (PacketAdaptationField_HasOPCR af);
-    [destruct (PacketAdaptationField_OPCR af) as [opcr|]; [|wsimpl; reflexivity]; cbn [need res_map res_bind]; wsimpl;
-     wcallee (writePCR_is_model opcr); wsimpl | cbn [res_bind]; wsimpl].
-  all: destruct (PacketAdaptationField_HasSplicingCountdown af); wsimpl.
-  all: destruct (PacketAdaptationField_HasTransportPrivateData af); wsimpl;
-    [destruct (Z.of_nat (length (PacketAdaptationField_TransportPrivateData af)) >? 0); wsimpl|].
-  all: destruct (PacketAdaptationField_HasAdaptationExtensionField af); cbn [res_bind]; wsimpl.
-  all: try (destruct (PacketAdaptationField_AdaptationExtensionField af) as [ext|]; [|cbn [need res_bind]; wsimpl; reflexivity];
-            cbn [need res_bind]; wsimpl;
-            pose proof (writeAFE_is_model ext) as HX;
-            destruct (enc_af_extension ext) as [[xi xn]|c|];
-            [ wcallee HX; wsimpl
-            | destruct (wf_sim_err_inv _ _ HX) as (lx & ax & ex & EX & Hx); rewrite EX; wsimpl;
-              rewrite (werr_not_nil _ _ Hx); wsimpl; cbn [res_bind wf_sim snd]; eauto
-            | destruct (wf_sim_panic_inv _ HX) as (lx & EX); rewrite EX; wsimpl; reflexivity ]).
-  all: cbn [res_bind]; rewrite af_loop_is; wsimpl.
-  all: wfinish.
+  wstep.
+  all: try match goal with |- context [wbind (wcall (writePacketAdaptationFieldExtension ?e)) ?k] =>
+             wcall_res (writeAFE_is_model e); wmodel_cbn; wstep end.
+  all: try solve [wfinish].
+  all: rewrite af_loop_is; wsimpl; wfinish.
 Qed.
 
 Lemma packet_loop_is n : forall av n0 p t w,
